@@ -142,6 +142,7 @@ func runGen(cfg *Cfg) {
 		}
 		if first != nil && len(first.File) == 1 {
 			indexLines(out, req.ProtoFile[len(req.ProtoFile)-1], first.File[0].GetContent())
+			nameLines(out, req.ProtoFile[len(req.ProtoFile)-1], first.File[0].GetContent())
 		}
 		if len(out.res.Samples) < 3 {
 			out.Sample("request " + rep.ID + " (" + rep.Corpus + "): " + fmt.Sprint(len(first.GetFile())) + " files")
@@ -642,4 +643,66 @@ func indexLines(out *Out, fd *descriptorpb.FileDescriptorProto, src string) {
 		}
 	}
 	walk(fd.MessageType, nil, nil)
+}
+
+var reStructField = regexp.MustCompile("(?m)^\\s+(\\w+)\\s+\\S+\\s+`protobuf:\"[^\"]*name=(\\w+)[,\"]")
+var reOneofField = regexp.MustCompile("(?m)^\\s+(\\w+)\\s+is\\w+\\s+`protobuf_oneof:\"(\\w+)\"`")
+
+// nameLines: ties the Lean model of the reserved-name rewrite to the struct field names actually
+// emitted: `goname <protogen CamelCase name>` must give the Go field name found next to the
+// `name=<proto name>` tag (fields) / the `protobuf_oneof:"<name>"` tag (oneofs).
+func nameLines(out *Out, fd *descriptorpb.FileDescriptorProto, src string) {
+	seen := map[string]bool{}
+	for _, m := range reStructField.FindAllStringSubmatch(src, -1) {
+		goName, protoName := m[1], m[2]
+		camel := goCamel(protoName)
+		if seen["f"+camel+goName] || strings.Contains(camel, "_") && false {
+			continue
+		}
+		seen["f"+camel+goName] = true
+		out.Line("C12", "goname "+protogenUnique(camel), goName)
+	}
+	for _, m := range reOneofField.FindAllStringSubmatch(src, -1) {
+		goName, protoName := m[1], m[2]
+		camel := goCamel(protoName)
+		if seen["o"+camel+goName] {
+			continue
+		}
+		seen["o"+camel+goName] = true
+		out.Line("C12", "goname "+camel, goName)
+	}
+	_ = fd
+}
+
+// goCamel: protogen's GoCamelCase for the simple identifiers the corpus uses.
+func goCamel(s string) string {
+	var b []byte
+	for i := 0; i < len(s); i++ {
+		c := s[i]
+		switch {
+		case c == '_' && i+1 < len(s) && s[i+1] >= 'a' && s[i+1] <= 'z':
+			// skip the underscore, upper-case the next letter
+		case c == '.' && i+1 < len(s) && s[i+1] >= 'a' && s[i+1] <= 'z':
+		case i == 0 && c == '_':
+			b = append(b, 'X')
+		case c >= '0' && c <= '9':
+			b = append(b, c)
+		default:
+			if (i == 0 || s[i-1] == '_' || s[i-1] == '.') && c >= 'a' && c <= 'z' {
+				c -= 'a' - 'A'
+			}
+			b = append(b, c)
+		}
+	}
+	return string(b)
+}
+
+// protogenUnique: protogen (trusted) already suffixes names colliding with methods of every generated
+// message before the plugin's own rewrite sees them.
+func protogenUnique(n string) string {
+	switch n {
+	case "Reset", "String", "ProtoMessage", "Marshal", "Unmarshal", "ExtensionRangeArray", "ExtensionMap", "Descriptor":
+		return n + "_"
+	}
+	return n
 }
